@@ -245,6 +245,8 @@ class Module:
                     self.consts[node.targets[0].id] = v
             elif isinstance(node, ast.ClassDef):
                 for st in node.body:
+                    if isinstance(st, ast.FunctionDef):
+                        self.funcs[node.name + "." + st.name] = st      # methods: `self` must be a declared record
                     if isinstance(st, ast.Assign) and len(st.targets) == 1 and isinstance(st.targets[0], ast.Name):
                         v = self._const_value(st.value, node.name)
                         if v is not None:
@@ -288,7 +290,7 @@ class Module:
 
     # -- public API ------------------------------------------------------------------------------
     def translate(self, name):
-        """FnInfo of a module-level function (translating it and its callees if needed)"""
+        """FnInfo of a module-level function or `Class.method` (translating it and its callees if needed)"""
         if name in self.done:
             r = self.done[name]
             if isinstance(r, Untranslatable):
@@ -302,7 +304,7 @@ class Module:
             raise Untranslatable(f"recursive function {name}")
         self.in_progress.add(name)
         try:
-            info = FnTranslator(self, self.funcs[name], None, None).run()
+            info = FnTranslator(self, self.funcs[name], None, None, spec_name=name).run()
             self.done[name] = info
             self.order.append(info)
             return info
@@ -346,7 +348,7 @@ class Module:
             if status[n] is not None:
                 msg = status[n].replace("\\", "\\\\").replace('"', "'")
                 out.append(f"/-- `{n}` is outside the translated subset: {msg} -/")
-                out.append(f'def {lean_ident(n)} : Untranslatable "{msg}" := ⟨⟩')
+                out.append(f'def {lean_ident(n.replace(".", "__"))} : Untranslatable "{msg}" := ⟨⟩')
                 out.append("")
         out.append(f"end {self.namespace}")
         return "\n".join(out) + "\n", status
@@ -406,9 +408,10 @@ class Env:
 
 
 class FnTranslator:
-    def __init__(self, module, node, outer, captured):
+    def __init__(self, module, node, outer, captured, spec_name=None):
         self.m = module
         self.node = node
+        self.spec_name = spec_name or node.name
         self.outer = outer            # enclosing FnTranslator for a nested def
         self.captured = captured      # [(pyname, shape)] for a nested def
         self.used = set()             # lean names in use
@@ -416,7 +419,7 @@ class FnTranslator:
         self.ret_shape = None
         self.nested = {}              # name -> (ast.FunctionDef, {sig: FnInfo})
         self.prefix_texts = []        # lifted nested definitions
-        self.cfg = module.config.get(node.name, {}) if outer is None else {}
+        self.cfg = module.config.get(self.spec_name, module.config.get(node.name, {})) if outer is None else {}
         self.records = set(self.cfg.get("records", ()))
         self.record_attrs = {}        # dotted path -> lean name
         self.opaque = dict(self.cfg.get("opaque", {}))
@@ -452,8 +455,8 @@ class FnTranslator:
             self.fail(node, "unsupported parameter kind (*args / **kwargs / keyword-only)")
         if node.decorator_list:
             self.fail(node, "decorated function")
-        name = node.name if self.outer is None else self.outer.node.name + "__" + node.name
-        info = FnInfo(node.name, lean_ident(name), self.m.namespace + "." + lean_ident(name))
+        name = self.spec_name.replace(".", "__") if self.outer is None else self.outer.node.name + "__" + node.name
+        info = FnInfo(self.spec_name if self.outer is None else node.name, lean_ident(name), self.m.namespace + "." + lean_ident(name))
         env = Env()
         params = []
         if self.captured:
@@ -1211,7 +1214,10 @@ class FnTranslator:
         parts = []
         first = True
         for op, rhs in zip(node.ops, node.comparators):
-            p, right = self.expr(rhs, env)
+            if isinstance(op, (ast.In, ast.NotIn)) and isinstance(rhs, (ast.Tuple, ast.List)):
+                p, right = [], ("unit", "()", U)
+            else:
+                p, right = self.expr(rhs, env)
             if p and not first:
                 self.fail(node, "chained comparison whose later operand has effects")
             pre += p
@@ -1223,6 +1229,16 @@ class FnTranslator:
                     return pre, ("lit", "false" if isinstance(op, ast.Is) else "true", B)
                 self.fail(node, "`is` comparison")
             if isinstance(op, (ast.In, ast.NotIn)):
+                # membership in a literal tuple / list of numbers: a disjunction of equalities
+                if isinstance(rhs, (ast.Tuple, ast.List)) and rhs.elts and left[2] == N and len(node.ops) == 1:
+                    eqs = []
+                    for e in rhs.elts:
+                        pe, ve = self.expr(e, env)
+                        if pe or ve[2] != N:
+                            self.fail(node, "`in` test against elements that are not plain numbers")
+                        eqs.append(f"Num.eq {left[1]} {ve[1]}")
+                    c = "(" + " || ".join(eqs) + ")"
+                    return pre, ("pure", c if isinstance(op, ast.In) else f"(!{c})", B)
                 self.fail(node, "`in` test")
             if left[2] == N and right[2] == N:
                 parts.append(f"{CMPOPS[type(op)]} {left[1]} {right[1]}")
@@ -1293,6 +1309,10 @@ class FnTranslator:
             x = self.as_num(node.args[0], a)
             r = self.tmp()
             return pre + [("let", r, f"Num.cast Ty.{t} {x}", None)], ("atom", r, N)
+        if isinstance(node.func, ast.Name) and node.func.id in self.m.config.get("__wrappers__", ()) \
+                and node.func.id not in env.d and len(node.args) == 1 and not node.keywords:
+            # a constructor that only stores its argument (`Shape4D([n, h, w, c])`): the value is the argument
+            return self.expr(node.args[0], env)
         if isinstance(node.func, ast.Name) and node.func.id in NT_FIELDS and node.func.id not in env.d:
             fields = NT_FIELDS[node.func.id]
             given = {}
